@@ -14,7 +14,7 @@ W=/tmp/confirm/$ID
 rm -rf "$W"; mkdir -p /tmp/confirm
 git -C /repo worktree add -q --detach "$W" HEAD || exit 2
 mkdir -p "$W/tmp"
-export CARGO_TARGET_DIR=/tmp/confirm/target CARGO_NET_OFFLINE=true
+export CARGO_TARGET_DIR=/tmp/confirm/target-$ID CARGO_NET_OFFLINE=true   # per seed: concurrent evaluations must not share test binaries
 cp "$OUT/seeded_demo.rs" "$W/tests/seeded_demo.rs"
 ( cd "$W" && cargo test --offline --test seeded_demo >"$OUT/demo_without.txt" 2>&1 ); DEMO_WITHOUT=$?
 ( cd "$W" && git apply "$OUT/patch.diff" ) || { echo "patch does not apply"; git -C /repo worktree remove --force "$W"; exit 2; }
@@ -23,10 +23,25 @@ cp "$OUT/seeded_demo.rs" "$W/tests/seeded_demo.rs"
 rm -f "$W/tests/seeded_demo.rs"
 /verif/selftest/repo_suite.sh "$W" >"$OUT/suite.txt" 2>&1; SUITE=$?
 git -C /repo worktree remove --force "$W"
+rm -rf /tmp/confirm/target-$ID
+unset CARGO_TARGET_DIR
 echo "build=$BUILD suite=$SUITE demo_with_change=$DEMO_WITH (want !=0) demo_without_change=$DEMO_WITHOUT (want 0)"
 CONFIRMED=false
 if [ $BUILD -eq 0 ] && [ $SUITE -eq 0 ] && [ $DEMO_WITH -ne 0 ] && [ $DEMO_WITHOUT -eq 0 ]; then CONFIRMED=true; fi
 # run the checks against a scratch worktree with the change applied (FATFS_PATH), never against /repo itself
+if [ -n "${CONFIRM_ONLY:-}" ]; then
+  python3 - "$OUT" "$CONFIRMED" "$BUILD" "$SUITE" "$DEMO_WITH" "$DEMO_WITHOUT" <<'PY'
+import json,sys,os
+out,conf,build,suite,dw,dwo=sys.argv[1:7]
+p=os.path.join(out,'meta.json')
+m=json.load(open(p)) if os.path.exists(p) else {}
+m["confirmed"]=conf=="true"
+m.setdefault("confirmation",{}).update({"build_rc":int(build),"repo_suite_rc":int(suite),"demo_with_change_rc":int(dw),"demo_without_change_rc":int(dwo)})
+json.dump(m,open(p,'w'),indent=1)
+print("confirmed:",m["confirmed"])
+PY
+  exit 0
+fi
 CAUGHT=""
 : >"$OUT/check_output.txt"
 W2=/tmp/confirm/$ID-run
